@@ -208,7 +208,11 @@ func genWrap(seed uint64, faulty bool) *Scenario {
 		switch {
 		case strings.HasPrefix(w.Kind, "blank") && g.pct(45):
 			k := []string{"set-static", "set-static", "set-watch", "set-watch-eager", "set-fail", "set-watch-fail", "bdone", "bvalue"}[g.r.IntN(8)]
-			c.Ops = append(c.Ops, Op{K: k, N: int(g.id())})
+			op := Op{K: k, N: int(g.id())}
+			if g.pct(50) {
+				op.Ctx = "call"
+			}
+			c.Ops = append(c.Ops, op)
 		case g.pct(15):
 			c.Ops = append(c.Ops, Op{K: "sleep", D: int64(g.in(1, 300)) * 1e6})
 		case faulty && g.pct(12):
@@ -279,13 +283,14 @@ type wInnerWatch struct {
 	eagerErr  error
 	wa        dials.WatchArgs
 	typ       *dials.Type
+	ctx       context.Context // what Watch was given: a watcher lives exactly as long as this
 }
 
 func (s *wInnerWatch) Watch(ctx context.Context, t *dials.Type, wa dials.WatchArgs) error {
 	if s.failWatch {
 		return errInner
 	}
-	s.wa, s.typ = wa, t
+	s.wa, s.typ, s.ctx = wa, t, ctx
 	if s.eager != 0 {
 		s.eagerErr = wa.ReportNewValue(ctx, innerValue(t, s.eager, s.own, false))
 	}
@@ -331,6 +336,24 @@ type wrapRun struct {
 	state             string // empty | static | watching
 	expectMonitorGone bool
 	expectStamp       uint64 // stamp the wrapped twin must show once settled (0: only twin equality is checked)
+	watchers          []*wInnerWatch
+}
+
+// watchContexts: natively a watcher is handed the Config context and lives as
+// long as it; behind a wrapper the context it is handed must end exactly then.
+func (r *wrapRun) watchContexts(when string) {
+	for _, w := range r.watchers {
+		if w.ctx == nil {
+			continue
+		}
+		r.probes["watch-context-checked"]++
+		switch {
+		case r.ctx.Err() == nil && w.ctx.Err() != nil:
+			r.fail("C20.watch-context", "%s: the context the wrapper handed to the inner watcher's Watch has ended (%v) although the Config context is live: the watcher has shut down and its later updates are lost", when, w.ctx.Err())
+		case r.ctx.Err() != nil && w.ctx.Err() == nil:
+			r.fail("C20.watch-context", "%s: the Config context has ended but the context the wrapper handed to the inner watcher's Watch is still live: the watcher never stops", when)
+		}
+	}
 }
 
 func (r *wrapRun) fail(oracle, format string, a ...any) {
@@ -360,6 +383,7 @@ func runWrap(sc *Scenario, res *Result, keepLog bool) {
 	switch w.Kind {
 	case "twatch":
 		innerW = &wInnerWatch{wInner: wInner{id: w.InitID, own: "Stamp", both: w.Fault == "both-alias", failVal: w.Fault == "value-err"}, failWatch: w.Fault == "watch-err"}
+		r.watchers = append(r.watchers, innerW)
 		wsrc = sourcewrap.NewTransformingSource(innerW, mg...)
 	case "tstatic":
 		wsrc = sourcewrap.NewTransformingSource(&wInner{id: w.InitID, own: "Stamp", both: w.Fault == "both-alias", failVal: w.Fault == "value-err"}, mg...)
@@ -439,6 +463,7 @@ func runWrap(sc *Scenario, res *Result, keepLog bool) {
 			}
 			r.fail("stuck", "clients did not finish (%s)\n%s", reason, strings.Join(lines, "\n"))
 		} else {
+			r.watchContexts("after all updates settled")
 			r.compare("after all updates settled")
 			if r.expectMonitorGone {
 				// Blank was the only watcher and released its slot: the wrapped
@@ -454,6 +479,7 @@ func runWrap(sc *Scenario, res *Result, keepLog bool) {
 	}
 	r.cancel()
 	s.Run(20000, nil, time.Now().Add(settleHorizon))
+	r.watchContexts("after the Config context was cancelled")
 	for _, t := range s.Tasks() {
 		if t.Lib && t.State != simrt.Exited {
 			r.fail("C08.leak", "library goroutine %s still %s at %q after cancel", t.Name, t.State, t.Label)
@@ -525,9 +551,19 @@ func (r *wrapRun) wrapped(c *ClientSpec, blank *sourcewrap.Blank, inner *wInnerW
 		}
 	}
 	var blankInner *wInner
+	// callCtx: SetSource is often called with a context of its own that ends
+	// as soon as the call has returned (a per-request timeout)
+	callCtx := func(op *Op) (context.Context, context.CancelFunc) {
+		if op.Ctx == "call" {
+			r.probes["setsource-with-a-per-call-context"]++
+			return context.WithCancel(r.ctx)
+		}
+		return r.ctx, func() {}
+	}
 	for i := range c.Ops {
 		op := &c.Ops[i]
 		id := uint64(op.N)
+		r.watchContexts("before " + op.K)
 		switch op.K {
 		case "sleep":
 			simrt.Sleep(time.Duration(op.D))
@@ -571,7 +607,9 @@ func (r *wrapRun) wrapped(c *ClientSpec, blank *sourcewrap.Blank, inner *wInnerW
 			if (r.sc.Wrap.Kind == "blank-twatch" || len(names) > 0) && r.sc.Wrap.Kind != "blank-inside-t" {
 				src = sourcewrap.NewTransformingSource(in, mg...)
 			}
-			err := blank.SetSource(r.ctx, src)
+			sctx, scancel := callCtx(op)
+			err := blank.SetSource(sctx, src)
+			scancel()
 			switch {
 			case r.state == "watching":
 				r.probes["replace-watching-refused"]++
@@ -603,7 +641,9 @@ func (r *wrapRun) wrapped(c *ClientSpec, blank *sourcewrap.Blank, inner *wInnerW
 			if len(names) > 0 && r.sc.Wrap.Kind != "blank-inside-t" {
 				src = sourcewrap.NewTransformingSource(iw, mg...)
 			}
-			err := blank.SetSource(r.ctx, src)
+			sctx, scancel := callCtx(op)
+			err := blank.SetSource(sctx, src)
+			scancel()
 			r.probes["setsource-watching-value-fails"]++
 			switch {
 			case r.state == "watching":
@@ -625,7 +665,12 @@ func (r *wrapRun) wrapped(c *ClientSpec, blank *sourcewrap.Blank, inner *wInnerW
 			if (r.sc.Wrap.Kind == "blank-twatch" || len(names) > 0) && r.sc.Wrap.Kind != "blank-inside-t" {
 				src = sourcewrap.NewTransformingSource(iw, mg...)
 			}
-			err := blank.SetSource(r.ctx, src)
+			sctx, scancel := callCtx(op)
+			err := blank.SetSource(sctx, src)
+			scancel()
+			if err == nil {
+				r.watchers = append(r.watchers, iw)
+			}
 			if r.state == "watching" {
 				r.probes["replace-watching-refused"]++
 				if err == nil {
